@@ -1374,7 +1374,9 @@ func c19Vectors(scratch string, thorough bool) []Vec {
 		"sleep":     {"0s", "1ms", "-1s", "abc", ""},
 		"server_id": {"10.0.0.1", "2001:db8::1", "::ffff:10.0.0.1", "LL", "llt", "en", "uuid", "00:11:22:33:44:55", "00:11:22:33:44:55:66:77", "0011.2233.4455", "bogus", ""},
 		"file":      {good4, good6, bad, filepath.Join(scratch, "missing.txt"), scratch, "", "autorefresh", "foo"},
-		"prefix":    {"2001:db8::/48", "2001:db8::/60", "10.0.0.0/8", "::ffff:10.0.0.0/104", "::/0", "2001:db8::1/64", "bogus", "64", "56", "16", "8", "112", "128", "129", "-1", "0", "abc", "100"},
+		"prefix":    {"2001:db8::/48", "2001:db8::/60", "10.0.0.0/8", "::ffff:10.0.0.0/104", "::/0", "2001:db8::1/64", "bogus", "64", "56", "16", "8", "112", "128", "129", "-1", "0", "abc", "100",
+			// long pools, for which a delegation length beyond 128 is "only a few bits more"
+			"2001:db8:0:1::ff00/120", "2001:db8::1/128", "130", "255", "256"},
 	}
 	var out []Vec
 	maxAr := 2
